@@ -40,6 +40,15 @@ fn hostile_path(r: &mut Rng) -> String {
     if r.below(4) == 0 {
         s.push('/');
     }
+    // rarely: a refused path as large as a request frame allows (1 MiB), plain or made of
+    // characters that every escaping/quoting scheme expands
+    if r.below(60) == 0 {
+        return match r.below(3) {
+            0 => format!("../{}", "A".repeat((1 << 20) - 400)),
+            1 => format!("/{}", "\u{1}".repeat(230_000)),
+            _ => format!("../{}", "\"\\".repeat(270_000)),
+        };
+    }
     // a few classics
     match r.below(12) {
         0 => "../secret".into(),
